@@ -57,7 +57,8 @@ QUICK_CODES = set(CODES_WITH_ARRAYS) | {k.split("|")[1] for k in CODE_API_MAP} |
 
 
 def _quick(code, verb, n, shape):
-    return code in QUICK_CODES and n == lengths(code, verb)[0] and shape == ("self" if verb == " I" else "src_dst")
+    first = n == lengths(code, verb)[0] or code == "3EF0"  # (3EF0: every length -- its ratios differ per length)
+    return code in QUICK_CODES and first and shape == ("self" if verb == " I" else "src_dst")
 
 
 def sym_frame(code, verb, n, shape):
